@@ -96,7 +96,8 @@ def make_font(colr, n_palettes=1, version=1, adv=1000, upem=1000, asc=800, desc=
     for g in order:
         gl = fb.font["glyf"][g]
         gl.recalcBounds(fb.font["glyf"])
-        fb.font["hmtx"][g] = (adv, getattr(gl, "xMin", 0) or 0)
+        # the second colour glyph is narrower than the first: the placement of a picture in a fixed viewBox depends on the advance
+        fb.font["hmtx"][g] = (adv - 300 if g == "base2" else adv, getattr(gl, "xMin", 0) or 0)
     fb.setupHorizontalHeader(ascent=asc, descent=desc)
     fb.setupNameTable({"familyName": "T", "styleName": "R"})
     fb.setupOS2(sTypoAscender=asc, sTypoDescender=desc, usWinAscent=asc, usWinDescent=-desc)
@@ -331,7 +332,7 @@ def run(report, tier, only=None):
     selftest.run(report)
     outer_len = 1 if tier == "quick" else 2
     cases = []
-    variants = [{}] + [{"structure": s} for s in STRUCTURES[1:]] + [{"palettes": 2}, {"vb": "box100"}, {"palettes": 2, "vb": "box100"}]
+    variants = [{}] + [{"structure": s} for s in STRUCTURES[1:]] + [{"palettes": 2}, {"vb": "box100"}, {"palettes": 2, "vb": "box100"}, {"structure": "two_glyphs", "vb": "box100"}, {"structure": "colrglyph_outer", "vb": "box100"}]
     for o in words(outer_len):
         for i in words(1):
             for f in FILLS:
